@@ -46,6 +46,17 @@ func (e *Engine) intrinsics() map[string]externalFn {
 		sym + ".CallArg":   extSymCallArg,
 		sym + ".Leaked":    func(fr *frame, args []value) value { return fr.i.sch.countLive() },
 		sym + ".Concrete":  extSymConcrete,
+		sym + ".ExploreSchedules": func(fr *frame, args []value) value {
+			if fr.i.opts.Sched == SchedExplore {
+				if args[0].(bool) {
+					fr.i.sch.mode = SchedExplore
+				} else {
+					fr.i.sch.mode = SchedLow
+				}
+			}
+			return nil
+		},
+		sym + ".Quiesce":   func(fr *frame, args []value) value { fr.i.sch.quiesce(); return nil },
 		sym + ".Opaque": func(fr *frame, args []value) value {
 			s, ok := args[0].(string)
 			return ok && strings.Contains(s, phOpen)
